@@ -3,6 +3,7 @@
 package verifhooks
 
 import (
+	"sync/atomic"
 	"reflect"
 	"unsafe"
 	"fmt"
@@ -103,3 +104,6 @@ func PrefilledCache(slots int, keys []*GoType, vals []interface{}) *ProgramCache
 // SortMapKeys runs the encoder's map-key sorter on keys in the given order; own = every key
 // lives in its pair's own scratch array (the integer-key layout).
 func SortMapKeys(keys []string, own bool) ([]string, bool) { return alg.VerifSortKeys(keys, own) }
+
+// Marking reports whether the collector is in its mark phase (write barriers enabled).
+func Marking() bool { return atomic.LoadUintptr(&rt.RuntimeWriteBarrier)&0xff != 0 }
